@@ -154,7 +154,11 @@ def fmt_norm(e):
         for v in e.values:
             if isinstance(v, ast.Constant):
                 tmpl += str(v.value).replace("{", "{{").replace("}", "}}")
-            elif isinstance(v, ast.FormattedValue) and v.format_spec is None and v.conversion in (-1, 115):
+            elif isinstance(v, ast.FormattedValue) and v.conversion in (-1, 115) and (
+                    v.format_spec is None or (isinstance(v.format_spec, ast.JoinedStr) and len(v.format_spec.values) == 1 and
+                                              isinstance(v.format_spec.values[0], ast.Constant) and
+                                              v.format_spec.values[0].value in ("d", "s", ""))):
+                # {x:d} prints an integer exactly like %d / %u / {}
                 tmpl += "{}"
                 args.append(canon(v.value))
             else:
@@ -317,3 +321,45 @@ def return_origins(repo, ci, func, depth=0, _seen=None):
                 yield r + (n,)
     if nret == 0:
         yield ("fresh", func, "no value returned", func)
+
+
+# ---------------------------------------------------------------- owners of code inside new helpers
+
+def owners(mod, node):
+    """Qualified names of the functions on whose behalf `node` executes: its enclosing function, or - when that is
+    a helper introduced after the pinned commit (name not in spec/baseline_names.json) that could not be inlined -
+    the baseline functions of the module that (transitively) call it. Who-may-write / who-may-call rules compare
+    this set with their allowed owners, so moving a store into a private helper of an allowed owner is not a
+    new writer."""
+    from inline import baseline
+    base = baseline().get(mod.name)
+    fd = node
+    while fd is not None and not isinstance(fd, ast.FunctionDef):
+        fd = getattr(fd, "_parent", None)
+    if fd is None or base is None or fd.name in base:
+        return {qualname(node)}
+    out, seen, work = set(), set(), [fd]
+    while work:
+        h = work.pop()
+        if id(h) in seen:
+            continue
+        seen.add(id(h))
+        callers = []
+        for f2 in ast.walk(mod.tree):
+            if not isinstance(f2, ast.FunctionDef) or f2 is h:
+                continue
+            for c in ast.walk(f2):
+                if isinstance(c, ast.Call):
+                    fn = c.func
+                    nm = fn.attr if isinstance(fn, ast.Attribute) else fn.id if isinstance(fn, ast.Name) else None
+                    if nm == h.name:
+                        callers.append(f2)
+                        break
+        if not callers:
+            out.add(qualname(h.body[0]) if h.body else h.name)
+        for f2 in callers:
+            if f2.name in base:
+                out.add(qualname(f2.body[0]))
+            else:
+                work.append(f2)
+    return out
